@@ -250,18 +250,20 @@ def check(run: Run) -> None:
 
     with run.obligation("C04.i", "K1+K2", "the delta window of a set / dictionary is rolled by EVERY write at a new time (touch-only writes included), so the "
                         "previous tick's added/removed bits are never readable as this tick's delta; every membership change of a dictionary stamps "
-                        "the key set's own modification time (shared with C05.b, C05.g)"):
+                        "the key set's own modification time (C05.b shared; the removal tables of C05.g projected onto time validation, window roll and "
+                        "the key-set stamp - what the removal does to the added/removed bits is C05's business, not C04's)"):
         from . import c05
         sub = Run("C04", run.tier, run.tree, quiet=True)
         c05.check(sub)
         run.evaluations += sub.evaluations
         run.count(1, "C04.i")
         for f in sub.findings:
-            if f.rule in ("C05.b", "C05.g"):
+            if f.rule == "C05.b":
                 run.finding("C04.i", f.key, f.message, f.loc)
         for e in sub.errors:
-            if e.startswith(("C05.b:", "C05.g:")):
+            if e.startswith("C05.b:"):
                 raise AnalysisError("model-mismatch", e)
+        c05.removal_tables(run, "C04.i", keep={"VALIDATE", "PREPARE", "KEYSET"})
 
 
 VARIANTS = [
